@@ -519,12 +519,14 @@ fn process_archive<'data, P: Platform>(
 }
 
 fn process_thin_archive<'data, P: Platform>(
-    input_file: &InputFile,
+    input_file: &'data InputFile,
     state: &TemporaryState<'data, P>,
 ) -> Result<LoadedFileState<'data, P>> {
     let absolute_path = &input_file.filename;
     let parent_path = absolute_path.parent().unwrap();
-    let mut files = Vec::new();
+    // The thin archive itself is one of our inputs, so it needs to be in the list of loaded files,
+    // otherwise we wouldn't notice if it was changed while we were running.
+    let mut files = vec![input_file];
     let mut parsed_files = Vec::new();
 
     for entry in ArchiveIterator::from_archive_bytes(input_file.data())? {
